@@ -8,23 +8,27 @@ package roprometheus
 
 //@ operator IncCounterOnNext
 //@   props C19 C09
+//@   otherwise !res(call.isPrometheusEnabled) : returns source
 //@   track counter.*
 //@   on next(ctx, value) : emits counter.Inc(), Next(ctx, value)
 
 //@ operator IncCounterOnError
 //@   props C19 C09
+//@   otherwise !res(call.isPrometheusEnabled) : returns source
 //@   track counter.*
 //@   on next(ctx, value) : emits Next(ctx, value)
 //@   on error(ctx, err) : emits counter.Inc(), Error(ctx, err)
 
 //@ operator IncCounterOnComplete
 //@   props C19 C09
+//@   otherwise !res(call.isPrometheusEnabled) : returns source
 //@   track counter.*
 //@   on next(ctx, value) : emits Next(ctx, value)
 //@   on complete(ctx) : emits counter.Inc(), Complete(ctx)
 
 //@ operator ObserveNextLag
 //@   props C19 C09
+//@   otherwise !res(call.isPrometheusEnabled) : returns source
 //@   track summaryOrHistogram.*
 //@   on next(ctx, value) : emits Next(ctx, value), summaryOrHistogram.Observe(_)
 
